@@ -1,8 +1,202 @@
-import Pycoin.Model.Curve
-namespace Pycoin.Curve
+import Pycoin.Proofs.Group
+import Pycoin.Proofs.GenMul
+import Pycoin.Proofs.Sqrt
+import Pycoin.Proofs.CurveFacts.secp256k1
+import Pycoin.Proofs.CurveFacts.secp256r1
+import Pycoin.Proofs.CurveFacts.bls12_381
+/-!
+C02 — elliptic-curve arithmetic is the group law.  Property theorems (helper lemmas: `Proofs/Field.lean`,
+`Proofs/Group.lean`).
 
-/-- infinity is a left identity of `Curve.add`, whatever the other operand -/
-theorem C02_add_inf_left (c : CurveParams) (P : Pt) : add c none P = .ok P := by
-  cases P <;> rfl
+Setting: `c : CurveParams` with `[Good c]` (`p` prime, `Δ = −16(4a³+27b²) ≠ 0` in `ZMod p`),
+`W c` the curve `y² = x³ + ax + b` over `ZMod p`, `(W c).Point` Mathlib's group of nonsingular points,
+`toPoint c : Pt → (W c).Point` the group element a coordinate pair denotes, `OnCurve c P` = `contains_point`,
+`Reduced c P` = coordinates in `[0, p)`.
+-/
+namespace Pycoin.Curve
+open Pycoin
+
+/-! ## (a) inverse_mod -/
+
+/-- `Curve.inverse_mod(a, m)` with `gcd(a, m) = 1`, `m > 1`: the Euclid loop terminates within the fuel the model
+gives it (no `outOfFuel`), the `assert d == 1` holds, the result lies in `[1, m−1]` and `a·result ≡ 1 (mod m)`. -/
+theorem C02_inverseMod_correct (a m : Int) (hm : 1 < m) (hg : Int.gcd a m = 1) :
+    ∃ r, inverseMod a m = .ok r ∧ 1 ≤ r ∧ r < m ∧ (a * r) % m = 1 :=
+  inverseMod_spec a m hm hg
+
+/-- over a prime modulus it is the field inverse -/
+theorem C02_inverseMod_field (p : Nat) [Fact p.Prime] (a : Int) (ha : (a : ZMod p) ≠ 0) :
+    ∃ r, inverseMod a (p : Int) = .ok r ∧ 1 ≤ r ∧ r < p ∧ (r : ZMod p) = (a : ZMod p)⁻¹ :=
+  inverseMod_prime p a ha
+
+example : inverseMod (-5) 17 = .ok 10 := by decide
+
+variable (c : CurveParams) [Good c]
+
+/-! ## (b) addition -/
+
+/-- `Curve.add` refines Mathlib's group law: for on-curve operands — unreduced or negative coordinates allowed,
+infinity allowed, `P = Q`, `P = −Q`, `y = 0` included — it never raises, the sum is on the curve, denotes
+`toPoint P + toPoint Q`, and every computed sum (both operands affine) has coordinates in `[0, p)`. -/
+theorem C02_add_refines (P Q : Pt) (hP : OnCurve c P) (hQ : OnCurve c Q) :
+    ∃ R, add c P Q = .ok R ∧ OnCurve c R ∧ toPoint c R = toPoint c P + toPoint c Q ∧
+      ((P ≠ none → Q ≠ none → Reduced c R) ∧ (Reduced c P → Reduced c Q → Reduced c R)) :=
+  add_refines c P Q hP hQ
+
+/-- closure: the sum of two curve points is a curve point (no exception) -/
+theorem C02_add_closed (P Q : Pt) (hP : OnCurve c P) (hQ : OnCurve c Q) :
+    ∃ R, add c P Q = .ok R ∧ containsPoint c R = true := by
+  obtain ⟨R, h1, h2, -⟩ := add_refines c P Q hP hQ
+  exact ⟨R, h1, h2⟩
+
+/-- commutativity: both orders denote the same group element; for reduced operands the results are the same
+coordinate pair -/
+theorem C02_add_comm (P Q : Pt) (hP : OnCurve c P) (hQ : OnCurve c Q) :
+    ∃ R R', add c P Q = .ok R ∧ add c Q P = .ok R' ∧ toPoint c R = toPoint c R' ∧
+      (Reduced c P → Reduced c Q → R = R') := by
+  obtain ⟨R, h1, h2, h3, -, h4⟩ := add_refines c P Q hP hQ
+  obtain ⟨R', h1', h2', h3', -, h4'⟩ := add_refines c Q P hQ hP
+  have : toPoint c R = toPoint c R' := by rw [h3, h3', add_comm]
+  exact ⟨R, R', h1, h1', this, fun rP rQ => toPoint_inj c h2 h2' (h4 rP rQ) (h4' rQ rP) this⟩
+
+/-- associativity: `(P + Q) + R` and `P + (Q + R)` never raise and denote the same group element; for reduced
+operands they are the same coordinate pair -/
+theorem C02_add_assoc (P Q R : Pt) (hP : OnCurve c P) (hQ : OnCurve c Q) (hR : OnCurve c R) :
+    ∃ S U T U', add c P Q = .ok S ∧ add c S R = .ok U ∧ add c Q R = .ok T ∧ add c P T = .ok U' ∧
+      toPoint c U = toPoint c U' ∧ (Reduced c P → Reduced c Q → Reduced c R → U = U') := by
+  obtain ⟨S, s1, s2, s3, -, s4⟩ := add_refines c P Q hP hQ
+  obtain ⟨U, u1, u2, u3, -, u4⟩ := add_refines c S R s2 hR
+  obtain ⟨T, t1, t2, t3, -, t4⟩ := add_refines c Q R hQ hR
+  obtain ⟨U', v1, v2, v3, -, v4⟩ := add_refines c P T hP t2
+  have : toPoint c U = toPoint c U' := by rw [u3, s3, v3, t3, add_assoc]
+  exact ⟨S, U, T, U', s1, u1, t1, v1, this,
+    fun rP rQ rR => toPoint_inj c u2 v2 (u4 (s4 rP rQ) rR) (v4 rP (t4 rQ rR)) this⟩
+
+omit [Good c] in
+/-- infinity is the identity, on both sides, for every operand -/
+theorem C02_add_zero (P : Pt) : add c P none = .ok P ∧ add c none P = .ok P := by
+  cases P <;> exact ⟨rfl, rfl⟩
+
+/-- `P + (−P) = ∞` with `−P = (x, p − y)` as `Point.__neg__` computes it (also for `y = 0`, where `−P = (x, p)`) -/
+theorem C02_add_neg (x y : Int) (h : containsXY c x y = true) :
+    neg c (some (x, y)) = .ok (some (x, c.p - y)) ∧ add c (some (x, y)) (some (x, c.p - y)) = .ok none := by
+  obtain ⟨hn, hc, ht⟩ := neg_refines c h
+  obtain ⟨R, h1, h2, h3, -⟩ := add_refines c (some (x, y)) (some (x, c.p - y)) h hc
+  refine ⟨hn, ?_⟩
+  rw [h1, toPoint_eq_zero c h2 (by rw [h3, ht, add_neg_cancel])]
+
+/-- negation denotes the group inverse -/
+theorem C02_neg_refines (x y : Int) (h : containsXY c x y = true) :
+    ∃ N, neg c (some (x, y)) = .ok N ∧ OnCurve c N ∧ toPoint c N = - toPoint c (some (x, y)) :=
+  ⟨_, (neg_refines c h).1, (neg_refines c h).2.1, (neg_refines c h).2.2⟩
+
+/-! ## (c) scalar multiplication -/
+
+/-- `Curve.multiply(P, e)` on a curve with an order `n` such that `n • P = ∞`: for every integer `e` — zero,
+negative, `≥ n` — the `(e, 3e)` ladder never raises, never runs out of fuel, and returns `e • P`. -/
+theorem C02_multiply_correct (P : Pt) (hP : OnCurve c P) (e : Int) (hn0 : c.n ≠ 0)
+    (hn : (c.n : Int) • toPoint c P = 0) :
+    ∃ R, multiply c P e = .ok R ∧ OnCurve c R ∧ toPoint c R = e • toPoint c P :=
+  multiply_refines c P hP e (fun _ => hn) (fun h => absurd h hn0)
+
+/-- the order-less variant (`order=None`): every `e ≥ 0` -/
+theorem C02_multiply_orderless (P : Pt) (hP : OnCurve c P) (e : Int) (hn0 : c.n = 0) (he : 0 ≤ e) :
+    ∃ R, multiply c P e = .ok R ∧ OnCurve c R ∧ toPoint c R = e • toPoint c P :=
+  multiply_refines c P hP e (fun h => absurd hn0 h) (fun _ => he)
+
+omit [Good c] in
+/-- … and a negative scalar on an order-less curve is an `AssertionError` (outside the property's quantifier) -/
+theorem C02_multiply_orderless_negative (P : Pt) (hP : P ≠ none) (e : Int) (hn0 : c.n = 0) (he : e < 0) :
+    multiply c P e = .error .assertion :=
+  multiply_negative_orderless c P hP e hn0 he
+
+/-- `order * P = ∞` for every point the order annihilates.  PARTIAL: the property says "for every point of the
+curve", i.e. `#E(F_p) = n`, a point count not provable here; the extra hypothesis is `n • P = ∞`
+(it holds for every `P ∈ ⟨G⟩` by `C02_order_G_*`). -/
+theorem C02_order_mul_partial (P : Pt) (hP : OnCurve c P) (hn0 : c.n ≠ 0) (hn : (c.n : Int) • toPoint c P = 0) (k : Int) :
+    multiply c P (k * c.n) = .ok none := by
+  obtain ⟨R, h1, h2, h3⟩ := C02_multiply_correct c P hP (k * c.n) hn0 hn
+  rw [h1, toPoint_eq_zero c h2 (by rw [h3, mul_zsmul, hn, zsmul_zero])]
+
+
+/-! ## (d) fixed-base table and blinding -/
+
+/-- `Generator.raw_mul(e) = e • G` for every integer `e`, on a generator with `0 < n ≤ 2²⁵⁶` and `n • G = ∞`
+(the 256-entry table loses higher bits of `e mod n`; `n ≤ 2²⁵⁶` is the explicit hypothesis, true of every shipped
+curve and of every toy curve) -/
+theorem C02_rawMul_correct (hG : containsXY c c.gx c.gy = true) (hn0 : c.n ≠ 0) (hn256 : c.n ≤ 2 ^ 256)
+    (hn : (c.n : Int) • toPoint c (basis c) = 0) (e : Int) :
+    ∃ R, rawMul c e = .ok R ∧ OnCurve c R ∧ toPoint c R = e • toPoint c (basis c) :=
+  rawMul_refines c hG hn0 hn256 hn e
+
+/-- the blinded `Generator.__mul__` denotes `e • G` whatever the blinding factor -/
+theorem C02_blindedMul_eq (hG : containsXY c c.gx c.gy = true) (hn0 : c.n ≠ 0) (hn256 : c.n ≤ 2 ^ 256)
+    (hn : (c.n : Int) • toPoint c (basis c) = 0) (bf e : Int) :
+    ∃ R, mulG c bf e = .ok R ∧ OnCurve c R ∧ toPoint c R = e • toPoint c (basis c) :=
+  mulG_refines c hG hn0 hn256 hn bf e
+
+/-- … hence blinded and plain agree as coordinate pairs (both are reduced or infinity) -/
+theorem C02_blindedMul_eq_rawMul (hG : containsXY c c.gx c.gy = true) (hn0 : c.n ≠ 0) (hn256 : c.n ≤ 2 ^ 256)
+    (hn : (c.n : Int) • toPoint c (basis c) = 0) (bf bf' e : Int) :
+    ∃ R R', mulG c bf e = .ok R ∧ mulG c bf' e = .ok R' ∧ toPoint c R = toPoint c R' := by
+  obtain ⟨R, h1, -, h3⟩ := mulG_refines c hG hn0 hn256 hn bf e
+  obtain ⟨R', h1', -, h3'⟩ := mulG_refines c hG hn0 hn256 hn bf' e
+  exact ⟨R, R', h1, h1', by rw [h3, h3']⟩
+
+/-! ## (f) points_for_x -/
+
+/-- `Generator.points_for_x(x)` for `p ≡ 3 (mod 4)` and `α = x³ + ax + b ≠ 0` (true on every curve of odd order):
+exactly the two curve points with abscissa `x`, even `y` first, when `α` is a square; `NoSuchPointError`
+(a `ValueError`) when it is not, and then the curve has no point with this abscissa. -/
+theorem C02_pointsForX_spec (h4 : c.p % 4 = 3) (x : Int) (hα : alphaOf c x ≠ 0) :
+    (IsSquare (alphaOf c x) →
+      ∃ y0 y1 : Int, pointsForX c x = .ok (some (x, y0), some (x, y1)) ∧
+        containsXY c x y0 = true ∧ containsXY c x y1 = true ∧ 0 < y0 ∧ y0 < c.p ∧ 0 < y1 ∧ y1 < c.p ∧
+        y0 % 2 = 0 ∧ y0 + y1 = c.p ∧
+        ∀ y : Int, 0 ≤ y → y < c.p → containsXY c x y = true → y = y0 ∨ y = y1) ∧
+    (¬ IsSquare (alphaOf c x) →
+      pointsForX c x = .error .noSuchPoint ∧ ∀ y : Int, containsXY c x y = false) :=
+  pointsForX_spec c h4 x hα
 
 end Pycoin.Curve
+
+/-! ## (e) the shipped curves: primality by Pratt certificates, order of the generator by evaluation -/
+namespace Pycoin.Gen.Curves
+open Pycoin.Curve
+
+theorem C02_prime_p_secp256k1 : Nat.Prime secp256k1.p := prime_p_secp256k1
+theorem C02_prime_n_secp256k1 : Nat.Prime secp256k1.n := prime_n_secp256k1
+theorem C02_prime_p_secp256r1 : Nat.Prime secp256r1.p := prime_p_secp256r1
+theorem C02_prime_n_secp256r1 : Nat.Prime secp256r1.n := prime_n_secp256r1
+theorem C02_prime_p_bls12_381 : Nat.Prime bls12_381.p := prime_p_bls12_381
+theorem C02_prime_n_bls12_381 : Nat.Prime bls12_381.n := prime_n_bls12_381
+
+/-- `n • G = ∞` in Mathlib's group, for the constants the code ships *now* (kernel evaluation of the model ladder) -/
+theorem C02_order_G_secp256k1 : (secp256k1.n : Int) • toPoint secp256k1 (basis secp256k1) = 0 := order_G_secp256k1
+theorem C02_order_G_secp256r1 : (secp256r1.n : Int) • toPoint secp256r1 (basis secp256r1) = 0 := order_G_secp256r1
+theorem C02_order_G_bls12_381 : (bls12_381.n : Int) • toPoint bls12_381 (basis bls12_381) = 0 := order_G_bls12_381
+
+/-- every shipped curve meets the side conditions of the generic theorems: `p ≡ 3 (mod 4)`, `0 < n ≤ 2²⁵⁶`,
+`G` on the curve (and `Good`: instances `good_*`) -/
+theorem C02_side_conditions :
+    (secp256k1.p % 4 = 3 ∧ secp256k1.n ≠ 0 ∧ secp256k1.n ≤ 2 ^ 256 ∧ containsXY secp256k1 secp256k1.gx secp256k1.gy = true) ∧
+    (secp256r1.p % 4 = 3 ∧ secp256r1.n ≠ 0 ∧ secp256r1.n ≤ 2 ^ 256 ∧ containsXY secp256r1 secp256r1.gx secp256r1.gy = true) ∧
+    (bls12_381.p % 4 = 3 ∧ bls12_381.n ≠ 0 ∧ bls12_381.n ≤ 2 ^ 256 ∧ containsXY bls12_381 bls12_381.gx bls12_381.gy = true) := by
+  refine ⟨⟨?_, ?_, ?_, G_on_curve_secp256k1⟩, ⟨?_, ?_, ?_, G_on_curve_secp256r1⟩, ⟨?_, ?_, ?_, G_on_curve_bls12_381⟩⟩ <;>
+    decide +kernel
+
+/-- scalar multiples of the generator are annihilated by the order: the hypothesis `n • P = ∞` of
+`C02_multiply_correct` / `C02_order_mul_partial` holds on the whole subgroup `⟨G⟩` -/
+theorem C02_order_subgroup_secp256k1 (k : Int) :
+    (secp256k1.n : Int) • (k • toPoint secp256k1 (basis secp256k1)) = 0 := by
+  rw [smul_comm, order_G_secp256k1, zsmul_zero]
+
+theorem C02_order_subgroup_secp256r1 (k : Int) :
+    (secp256r1.n : Int) • (k • toPoint secp256r1 (basis secp256r1)) = 0 := by
+  rw [smul_comm, order_G_secp256r1, zsmul_zero]
+
+theorem C02_order_subgroup_bls12_381 (k : Int) :
+    (bls12_381.n : Int) • (k • toPoint bls12_381 (basis bls12_381)) = 0 := by
+  rw [smul_comm, order_G_bls12_381, zsmul_zero]
+
+end Pycoin.Gen.Curves
